@@ -8,6 +8,7 @@ import (
 
 	martian "github.com/google/martian/v3"
 	mlog "github.com/google/martian/v3/log"
+	"github.com/google/martian/v3/mitm"
 )
 
 // EnvOpts configures one proxy environment.
@@ -17,6 +18,7 @@ type EnvOpts struct {
 	ResMod  martian.ResponseModifier
 	ReqMod  martian.RequestModifier
 	Timeout time.Duration // proxy.SetTimeout (0: keep the default of 5 minutes)
+	MITM    *mitm.Config  // non-nil: proxy.SetMITM (CONNECT requests are intercepted)
 	// Dial is consulted for the n-th dial (0-based) of the proxy's transport to addr; a non-nil error is
 	// returned to the transport (e.g. Refused(addr)); nil connects to the origin.
 	Dial func(n int, addr string) error
@@ -73,6 +75,9 @@ func NewEnv(opts EnvOpts, origin *Origin) (*Env, error) {
 	}
 	if opts.ReqMod != nil {
 		p.SetRequestModifier(opts.ReqMod)
+	}
+	if opts.MITM != nil {
+		p.SetMITM(opts.MITM)
 	}
 	p.SetDial(e.dial)
 	e.Proxy = p
